@@ -770,6 +770,7 @@ func main() {
 	c.Rule = "fixed scenario shapes (pipeline: fixed/grow/shrink/return/2-step+namespaced; P&T: fixed, required-patch-missing) plus seeded random shapes; for every reconcile of the fault-free run, EVERY API-call index x 6 outcomes (conflict, 500, timeout, crash-before, crash-after, applied-but-504), then fault-free retries to quiescence through all later phases; invariants I1 (live composed resource referenced), I2 (<=1 per name) checked by a post-write hook on every store state, I3 (one metadata.name per always-desired name), I4 (quiescence within 8 reconciles and fixed point). distinct = (scenario, reconcile, call index, outcome); non-trivial = the fault was reached and fell at/after the first effective write of its reconcile or was a crash. Composed-resource apply order follows Go map iteration in the code under test, so call index -> resource is not reproducible across processes; all indices are covered regardless."
 	c.Rule += " Interleave part: two XRs reconciled by ONE reconciler, the first parked before each of its API calls while the second completes; composed resources, references and conditions must equal those of the sequential run. Shapes also include desired names whose apiVersion changes between phases (kind kept) and P&T Compositions that lose and regain named templates between phases (new revision, the XR follows), with the same fault enumeration."
 	c.Rule += " " + "A P&T base template may already carry the composition-resource-name annotation of another template."
+	c.Rule += " " + "A pipeline scenario with six resources that never become ready; four further reconciles after the first quiet one of every phase must stay quiet; a P&T scenario whose Required patch source is set, removed and set again."
 	c.Assumptions = []string{"sim implements the apiserver rules listed in DESIGN.md 2.2 (SSA through k8s managedfields library)", "functions are deterministic programs of (request, phase)", "one XR; in 'provider' scenarios a provider actor finalizes composed resources one step after they start terminating"}
 	c.Floor = 200
 
